@@ -178,10 +178,13 @@ func (s *serviceImpl) Receive(m *net.Message, from Channel) error {
 
 // Terminate calls OnTerminate on all its objects.
 func (s *serviceImpl) Terminate() error {
-	s.RLock()
-	defer s.RUnlock()
+	s.Lock()
+	objects := s.objects
+	s.objects = make(map[uint32]Actor)
+	s.boxes = make(map[uint32]MailBox)
+	s.Unlock()
 
-	for _, obj := range s.objects {
+	for _, obj := range objects {
 		obj.OnTerminate()
 	}
 	if s.terminate != nil {
